@@ -85,6 +85,21 @@ Proof.
     + apply in_or_app. right. apply Hi; auto. rewrite In_use_exprs. auto.
   - cbn. rewrite app_nil_r. destruct ret as [r|]; cbn; [|constructor]. destruct (memb r s); cbn; repeat constructor; intros [].
 Qed.
+Lemma PW_SStruct x tn es : PW (SStruct x tn es).
+Proof.
+  intros S S' s Hsc (Hnd & Hfr & Hint) Hi. cbn [dce_stmt] in *.
+  destruct (negb (memb x s)) eqn:E; cbn [fst snd olist] in *.
+  - split; [reflexivity|]. split; [|constructor]. intros y Hy Hd. cbn in *. destruct Hd as [<-|Hd]; [|auto].
+    apply negb_true_iff in E. apply memb_false in E. contradiction.
+  - split; [|split; [|cbn; constructor; [intros []|constructor]]].
+    + cbn in *. rewrite andb_true_r. rewrite forallb_forall in *. intros e He.
+      apply (in_scope_tr S S' (use_exprs es s) e (Hsc e He)); [intros y ->; rewrite In_use_exprs; auto | exact Hi].
+    + intros y Hy Hd. cbn in *. destruct Hd as [<-|Hd]; [auto|]. right. apply Hi; auto. rewrite In_use_exprs. auto.
+Qed.
+Lemma PW_SLateDecl x : PW (SLateDecl x).
+Proof. intros S S' s Hsc. discriminate Hsc. Qed.
+Lemma PW_SLateAssign x e : PW (SLateAssign x e).
+Proof. intros S S' s Hsc. discriminate Hsc. Qed.
 Lemma PW_SBreak e : PW (SBreak e).
 Proof.
   intros S S' s Hsc (Hnd & Hfr & Hint) Hi. cbn [dce_stmt fst snd olist] in *.
@@ -306,6 +321,9 @@ Proof.
   - exact PW_SSIf.
   - exact PW_SBreak.
   - exact PW_SWhile.
+  - exact PW_SStruct.
+  - exact PW_SLateDecl.
+  - exact PW_SLateAssign.
   - exact QW_nil.
   - exact QW_cons.
 Qed.
@@ -352,6 +370,9 @@ Proof.
   - intros e s Hn. discriminate.
   - intros lvs ss bc _ s _. rewrite dce_SWhile. cbn zeta. destruct (dce_stmts ss _) as [ss' sb].
     destruct (dce_lvs _ sb) as [lvs2 sc]. reflexivity.
+  - intros x tn es s _. cbn [dce_stmt]. destruct (negb _); reflexivity.
+  - intros x s _. cbn [dce_stmt]. destruct (negb _); reflexivity.
+  - intros x e s _. cbn [dce_stmt]. destruct (negb _); reflexivity.
   - reflexivity.
   - intros st r Hs Hr s Hn. cbn in Hn. apply andb_prop in Hn. destruct Hn as [N1 N2]. cbn [dce_stmts].
     specialize (Hr s N2). destruct (dce_stmts r s) as [r' s1]. specialize (Hs s1 N1).
@@ -389,51 +410,54 @@ Proof.
     first [apply ccp_bound_nb in H | apply ccp_bin_rest_nb in H]; exact H.
 Qed.
 
+Section CcpNoBreak.
+Variable g : ver.
+Hypothesis Hg : v_guard g = true.
 Lemma try_loop_nb stmts body bc c : forall d l o c' b f,
-  try_loop ver_now stmts d l body bc c = Some (o, c', b, f) -> no_break_l o = true.
+  try_loop g stmts d l body bc c = Some (o, c', b, f) -> no_break_l o = true.
 Proof.
   induction d as [|d IHd]; intros l o c' b f Et; cbn [try_loop] in Et;
     destruct (bind_inits l c) as [cA|]; try discriminate;
     destruct (stmts body cA) as [[[[oA cB] bA] fA]|]; try discriminate;
     destruct (split_last oA) as [[restA last]|].
-  1, 3: cbn [v_guard ver_now andb] in Et; destruct (no_break_l restA) eqn:En; cbn [negb] in Et; rewrite ?orb_true_r, ?orb_false_r in Et;
+  1, 3: rewrite Hg in Et; cbn [andb] in Et; destruct (no_break_l restA) eqn:En; cbn [negb] in Et; rewrite ?orb_true_r, ?orb_false_r in Et;
         [|injection Et as <- _ _ _; reflexivity];
         destruct (negb (is_break last)); [injection Et as <- _ _ _; reflexivity|];
         destruct last; try discriminate; destruct bc as [bn|];
         [destruct (bind bn _ c); [|discriminate]|]; injection Et as <- _ _ _; exact En.
   - injection Et as <- _ _ _; reflexivity.
-  - destruct (try_loop ver_now stmts d _ body bc c) as [[[[o' c2'] b2'] f2']|] eqn:Et2; [|discriminate].
+  - destruct (try_loop g stmts d _ body bc c) as [[[[o' c2'] b2'] f2']|] eqn:Et2; [|discriminate].
     injection Et as <- _ _ _. eapply IHd; eauto.
 Qed.
 
 Lemma ccp_out_nb n : forall st c out c' b f,
-  no_break st = true -> ccp_stmt ver_now n st c = Some (out, c', b, f) -> no_break_l out = true.
+  no_break st = true -> ccp_stmt g n st c = Some (out, c', b, f) -> no_break_l out = true.
 Proof.
   induction n as [|n IH]; intros st c out c' b f Hnb H; [discriminate|].
-  assert (HG : forall ss c out c' b f, no_break_l ss = true -> ccp_stmts ver_now n ss c = Some (out, c', b, f) -> no_break_l out = true).
+  assert (HG : forall ss c out c' b f, no_break_l ss = true -> ccp_stmts g n ss c = Some (out, c', b, f) -> no_break_l out = true).
   { induction ss as [|s r IHr]; intros c0 out0 c0' b0 f0 Hn0 H0; unfold ccp_stmts in H0; cbn [ccp_go] in H0.
     - injection H0 as <- _ _ _. reflexivity.
     - cbn in Hn0. apply andb_prop in Hn0. destruct Hn0 as [Hn1 Hn2].
-      destruct (ccp_stmt ver_now n s c0) as [[[[o1 c1] b1] f1]|] eqn:E1; [|discriminate].
+      destruct (ccp_stmt g n s c0) as [[[[o1 c1] b1] f1]|] eqn:E1; [|discriminate].
       pose proof (IH _ _ _ _ _ _ Hn1 E1) as N1. destruct b1; [injection H0 as <- _ _ _; exact N1|].
-      destruct (ccp_go (ccp_stmt ver_now n) r c1) as [[[[o2 c2] b2] f2]|] eqn:E2; [|discriminate].
+      destruct (ccp_go (ccp_stmt g n) r c1) as [[[[o2 c2] b2] f2]|] eqn:E2; [|discriminate].
       injection H0 as <- _ _ _. rewrite no_break_l_app, N1. eapply IHr; eauto. }
-  destruct st; cbn [ccp_stmt] in H; fold (ccp_stmts ver_now n) in H.
+  destruct st; cbn [ccp_stmt] in H; fold (ccp_stmts g n) in H.
   - exact (ccp_bin_nb _ _ _ _ _ _ _ _ _ H).
   - destruct (lit _); [destruct (bind _ _ _)|]; try discriminate; injection H as <- _ _ _; reflexivity.
-  - injection H as <- _ _ _; reflexivity.
+  - match type of H with (match ?m with _ => _ end) = _ => destruct m as [cp|]; [destruct (bind _ _ _); [|discriminate]|] end; injection H as <- _ _ _; reflexivity.
   - injection H as <- _ _ _; reflexivity.
   - change (no_break (SIf c0 s1 s2 fas)) with (no_break_l s1 && no_break_l s2) in Hnb.
     apply andb_prop in Hnb. destruct Hnb as [Hn1 Hn2].
     destruct (lit (opt_expr (cx_v c) c0)) as [v|].
-    + destruct (ccp_stmts ver_now n _ c) as [[[[o1 c1] b1] f1]|] eqn:E1; [|discriminate].
+    + destruct (ccp_stmts g n _ c) as [[[[o1 c1] b1] f1]|] eqn:E1; [|discriminate].
       assert (N1 : no_break_l o1 = true) by (eapply HG; [|exact E1]; destruct (negb (v =? 0)); assumption).
       destruct b1; [injection H as <- _ _ _; exact N1|].
       destruct (bind_fas _ _ _); [injection H as <- _ _ _; exact N1 | discriminate].
-    + assert (GEN' : match ccp_stmts ver_now n s1 c with
+    + assert (GEN' : match ccp_stmts g n s1 c with
                      | None => None
                      | Some (o1, c1, _, f1) =>
-                         match ccp_stmts ver_now n s2 c with
+                         match ccp_stmts g n s2 c with
                          | None => None
                          | Some (o2, c2, _, f2) =>
                              match merge_fas fas (map (fun t => opt_expr (cx_v c1) (t_e1 t)) fas)
@@ -446,8 +470,8 @@ Proof.
                              end
                          end
                      end = Some (out, c', b, f) -> no_break_l out = true).
-      { intros HX. destruct (ccp_stmts ver_now n s1 c) as [[[[o1 c1] b1] f1]|] eqn:E1; [|discriminate].
-        destruct (ccp_stmts ver_now n s2 c) as [[[[o2 c2] b2] f2]|] eqn:E2; [|discriminate].
+      { intros HX. destruct (ccp_stmts g n s1 c) as [[[[o1 c1] b1] f1]|] eqn:E1; [|discriminate].
+        destruct (ccp_stmts g n s2 c) as [[[[o2 c2] b2] f2]|] eqn:E2; [|discriminate].
         destruct (merge_fas _ _ _ c) as [[fas' c0']|]; [|discriminate]. injection HX as <- _ _ _.
         destruct (_ && _); [reflexivity|]. cbn [no_break_l].
         change (no_break (SIf (opt_expr (cx_v c) c0) o1 o2 fas')) with (no_break_l o1 && no_break_l o2).
@@ -460,40 +484,48 @@ Proof.
       * destruct (is_lit (t_e1 t) 0 && is_lit (t_e2 t) 1); [injection H as <- _ _ _; reflexivity | exact (GEN' H)].
   - change (no_break (SSIf c0 inv ss)) with (no_break_l ss) in Hnb. destruct (lit _) as [v|].
     + destruct (negb _); [exact (HG _ _ _ _ _ _ Hnb H) | injection H as <- _ _ _; reflexivity].
-    + destruct (ccp_stmts ver_now n ss c) as [[[[o1 c1] b1] f1]|] eqn:E1; [|discriminate]. injection H as <- _ _ _.
+    + destruct (ccp_stmts g n ss c) as [[[[o1 c1] b1] f1]|] eqn:E1; [|discriminate]. injection H as <- _ _ _.
       destruct (is_nil o1); [reflexivity|]. cbn [no_break_l].
       change (no_break (SSIf (opt_expr (cx_v c) c0) inv o1)) with (no_break_l o1). now rewrite (HG _ _ _ _ _ _ Hnb E1).
   - discriminate.
-  - destruct (elim_lvs ver_now lvs c) as [[[K c1] f0]|]; [|discriminate].
-    destruct (ccp_stmts ver_now n ss c1) as [[[[body c_in] bb] f1]|] eqn:Eb; [|discriminate].
+  - destruct (elim_lvs g lvs c) as [[[K c1] f0]|]; [|discriminate].
+    destruct (ccp_stmts g n ss c1) as [[[[body c_in] bb] f1]|] eqn:Eb; [|discriminate].
     destruct (match split_last body with
-              | Some (rest, SBreak e) => if v_guard ver_now && negb (no_break_l rest) then None else Some (rest, e)
+              | Some (rest, SBreak e) => if v_guard g && negb (no_break_l rest) then None else Some (rest, e)
               | _ => None end) as [[rest e]|] eqn:Eonce.
     + assert (Hnr : no_break_l rest = true).
       { destruct (split_last body) as [[r l]|]; [|discriminate]. destruct l; try discriminate.
-        cbn [v_guard ver_now andb] in Eonce. destruct (no_break_l r) eqn:En; [|discriminate]. injection Eonce as <- _. exact En. }
+        rewrite Hg in Eonce. cbn [andb] in Eonce. destruct (no_break_l r) eqn:En; [|discriminate]. injection Eonce as <- _. exact En. }
       destruct (bind_inits _ c1) as [c2|]; [|discriminate].
-      destruct (ccp_stmts ver_now n rest c2) as [[[[o c3] b3] f2]|] eqn:Er; [|discriminate].
+      destruct (ccp_stmts g n rest c2) as [[[[o c3] b3] f2]|] eqn:Er; [|discriminate].
       destruct bc as [bn|]; [destruct (bind bn _ c3); [|discriminate]|]; injection H as <- _ _ _; exact (HG _ _ _ _ _ _ Hnr Er).
-    + destruct (try_loop ver_now (ccp_stmts ver_now n) 5 _ body bc c1) as [[[[o c2] b2] f2]|] eqn:Et; [|discriminate].
+    + destruct (try_loop g (ccp_stmts g n) 5 _ body bc c1) as [[[[o c2] b2] f2]|] eqn:Et; [|discriminate].
       injection H as <- _ _ _. exact (try_loop_nb _ _ _ _ _ _ _ _ _ _ Et).
+  - injection H as <- _ _ _; reflexivity.
+  - injection H as <- _ _ _; reflexivity.
+  - injection H as <- _ _ _; reflexivity.
 Qed.
 
 Lemma ccps_out_nb n : forall ss c out c' b f,
-  no_break_l ss = true -> ccp_stmts ver_now n ss c = Some (out, c', b, f) -> no_break_l out = true.
+  no_break_l ss = true -> ccp_stmts g n ss c = Some (out, c', b, f) -> no_break_l out = true.
 Proof.
   induction ss as [|s r IHr]; intros c0 out0 c0' b0 f0 Hn0 H0; unfold ccp_stmts in H0; cbn [ccp_go] in H0.
   - injection H0 as <- _ _ _. reflexivity.
   - cbn in Hn0. apply andb_prop in Hn0. destruct Hn0 as [Hn1 Hn2].
-    destruct (ccp_stmt ver_now n s c0) as [[[[o1 c1] b1] f1]|] eqn:E1; [|discriminate].
+    destruct (ccp_stmt g n s c0) as [[[[o1 c1] b1] f1]|] eqn:E1; [|discriminate].
     pose proof (ccp_out_nb _ _ _ _ _ _ _ Hn1 E1) as N1. destruct b1; [injection H0 as <- _ _ _; exact N1|].
-    destruct (ccp_go (ccp_stmt ver_now n) r c1) as [[[[o2 c2] b2] f2]|] eqn:E2; [|discriminate].
+    destruct (ccp_go (ccp_stmt g n) r c1) as [[[[o2 c2] b2] f2]|] eqn:E2; [|discriminate].
     injection H0 as <- _ _ _. rewrite no_break_l_app, N1. eapply IHr; eauto.
 Qed.
 
-Lemma ccp_no_break f f' fl : no_break_l (f_body f) = true -> ccp f = Some (f', fl) -> no_break_l (f_body f') = true.
+End CcpNoBreak.
+
+Lemma ccp_gen_no_break g f f' fl : v_guard g = true ->
+  no_break_l (f_body f) = true -> ccp_gen g f = Some (f', fl) -> no_break_l (f_body f') = true.
 Proof.
-  unfold ccp, ccp_gen. intros Hn H.
-  destruct (ccp_stmts ver_now ccp_fuel (f_body f) cx0) as [[[[out c] b] f1]|] eqn:E; [|discriminate].
-  injection H as <- _. cbn [f_body]. exact (ccps_out_nb _ _ _ _ _ _ _ Hn E).
+  unfold ccp_gen. intros Hg Hn H.
+  destruct (ccp_stmts g ccp_fuel (f_body f) cx0) as [[[[out c] b] f1]|] eqn:E; [|discriminate].
+  injection H as <- _. cbn [f_body]. exact (ccps_out_nb g Hg _ _ _ _ _ _ _ Hn E).
 Qed.
+Lemma ccp_no_break f f' fl : no_break_l (f_body f) = true -> ccp f = Some (f', fl) -> no_break_l (f_body f') = true.
+Proof. apply ccp_gen_no_break. reflexivity. Qed.
